@@ -17,6 +17,7 @@ package ion
 
 import (
 	"fmt"
+	"math"
 	"strconv"
 )
 
@@ -94,8 +95,14 @@ func (st *SymbolToken) Equal(o *SymbolToken) bool {
 // Parses text of the form '$n' for some integer n.
 func symbolIdentifier(symbolText string) (int64, bool) {
 	if len(symbolText) > 1 && symbolText[0] == '$' {
-		if sid, err := strconv.Atoi(symbolText[1:]); err == nil {
+		sid, err := strconv.Atoi(symbolText[1:])
+		if err == nil {
 			return int64(sid), true
+		}
+		if ne, ok := err.(*strconv.NumError); ok && ne.Err == strconv.ErrRange && symbolText[1] != '-' {
+			// Still of the form $n, only with more digits than an int holds: an ID beyond every symbol
+			// table, not ordinary text.
+			return math.MaxInt64, true
 		}
 	}
 
